@@ -372,6 +372,154 @@ fn run_case(payload: &str) -> String {
     line
 }
 
+/// The same replay against the REAL gossip manager (iroh endpoint bound to an OS-chosen local
+/// port, no peers): `real <flags> <label>*`.  The manager runs freely, i.e. it handles every
+/// message as soon as it is sent (`M` labels are ignored).  Output:
+/// `<thread>* | left=<number of GossipEvent::Left>`; a kept handle is `L` when publishing
+/// through it still succeeds 300 ms after the last step.
+fn run_real(payload: &str) -> String {
+    use p2panda_net::Endpoint;
+    use p2panda_net::gossip::GossipEvent;
+    let sh = shared();
+    let mut tok = payload.split_whitespace();
+    let flags: Vec<char> = tok.next().expect("flags").chars().collect();
+    let labels: Vec<&str> = tok.collect();
+    let n = flags.len();
+
+    let (ev_tx, ev_rx) = channel::<Ev>();
+    *EVENTS.lock().unwrap() = Some(ev_tx.clone());
+    let built = sh.rt.block_on(async {
+        let book = AddressBook::builder().spawn().await.map_err(|e| format!("{e:?}"))?;
+        let endpoint = Endpoint::builder(book.clone()).spawn().await.map_err(|e| format!("{e:?}"))?;
+        let gossip = Gossip::builder(book.clone(), endpoint.clone()).spawn().await.map_err(|e| format!("{e:?}"))?;
+        let events = gossip.events().await.map_err(|e| format!("{e:?}"))?;
+        Ok::<_, String>((book, endpoint, gossip, events))
+    });
+    let (_book, _endpoint, gossip, mut events) = match built {
+        Ok(x) => x,
+        Err(e) => return format!("SETUP {}", e.split(|c: char| !c.is_alphanumeric()).next().unwrap_or("")),
+    };
+    let topic: p2panda_core::Topic = [29u8; 32].into();
+
+    let mut joins = Vec::new();
+    for (i, f) in flags.iter().enumerate() {
+        let gossip = gossip.clone();
+        let tx = ev_tx.clone();
+        let drop_after = *f == 'd';
+        joins.push(std::thread::spawn(move || {
+            TID.with(|t| t.set(Some(i)));
+            let rt = tokio::runtime::Builder::new_current_thread().enable_all().build().expect("runtime");
+            park("start");
+            match rt.block_on(gossip.stream(topic)) {
+                Err(e) => {
+                    let _ = tx.send(Ev::Finished(i, Err(format!("{e:?}"))));
+                }
+                Ok(h) => {
+                    if drop_after {
+                        park("before_drop");
+                        drop(h);
+                        let _ = tx.send(Ev::Finished(i, Ok(None)));
+                    } else {
+                        let _ = tx.send(Ev::Finished(i, Ok(Some(h))));
+                    }
+                }
+            }
+            drop(gossip);
+            TID.with(|t| t.set(None));
+        }));
+    }
+
+    let mut ctl = Ctl {
+        rx: ev_rx,
+        th: (0..n).map(|_| Th::WaitingReply).collect(),
+        path: vec!['-'; n],
+        kept: (0..n).map(|_| None).collect(),
+        errs: vec![None; n],
+        queue: VecDeque::new(),
+        sess: None,
+        leaked: Vec::new(),
+        keep_alive: Vec::new(),
+        log: Vec::new(),
+    };
+    let step = |ctl: &mut Ctl, i: usize| -> Result<(), String> {
+        let Th::Parked(_, resume) = std::mem::replace(&mut ctl.th[i], Th::WaitingReply) else { unreachable!() };
+        let _ = resume.send(());
+        loop {
+            match ctl.next()? {
+                Ev::Msg(_) => continue,
+                ev => {
+                    if ctl.note_thread(ev)? == i {
+                        return Ok(());
+                    }
+                }
+            }
+        }
+    };
+    let outcome: Result<(), String> = (|| {
+        let mut started = 0;
+        while started < n {
+            ctl.note_thread(ctl.next()?)?;
+            started += 1;
+        }
+        for l in &labels {
+            if *l == "M" {
+                continue;
+            }
+            let i: usize = l.parse().map_err(|_| "BAD label".to_string())?;
+            if i < n && ctl.enabled(i) {
+                step(&mut ctl, i)?;
+            }
+        }
+        while let Some(i) = (0..n).find(|i| ctl.enabled(*i)) {
+            step(&mut ctl, i)?;
+        }
+        Ok(())
+    })();
+
+    let line = match outcome {
+        Err(e) => e,
+        Ok(()) => {
+            std::thread::sleep(Duration::from_millis(300));
+            let mut left = 0;
+            while let Ok(ev) = events.try_recv() {
+                if matches!(ev, GossipEvent::Left { .. }) {
+                    left += 1;
+                }
+            }
+            let mut parts = Vec::new();
+            for i in 0..n {
+                let p = ctl.path[i];
+                if ctl.errs[i].is_some() {
+                    parts.push(format!("{p}:E"));
+                } else if let Some(h) = &ctl.kept[i] {
+                    let live = sh.rt.block_on(h.publish(vec![1u8])).is_ok();
+                    parts.push(format!("{p}:{}:{}", if live { 'L' } else { 'X' }, h.verif_guard_counter()));
+                } else if matches!(ctl.th[i], Th::Finished) {
+                    parts.push(format!("{p}:d"));
+                } else {
+                    parts.push(format!("{p}:?"));
+                }
+            }
+            format!("{} | left={}", parts.join(" "), left)
+        }
+    };
+    *EVENTS.lock().unwrap() = None;
+    for t in ctl.th.iter_mut() {
+        if let Th::Parked(_, r) = std::mem::replace(t, Th::Finished) {
+            let _ = r.send(());
+        }
+    }
+    ctl.kept.clear();
+    drop(gossip);
+    for j in joins {
+        let _ = j.join();
+    }
+    line
+}
+
 pub fn main() {
-    h_common::run_cases(run_case);
+    h_common::run_cases(|payload| match payload.strip_prefix("real ") {
+        Some(rest) => run_real(rest),
+        None => run_case(payload),
+    });
 }
